@@ -1,12 +1,46 @@
 PROP = dict(
     unclaimed=True,
     module="M3d.Props.C19",
-    corr=dict(quick=300, thorough=1500),
+    corr=dict(quick=500, thorough=2500),
     gen=[],
-    corr_theorems="(filled in below)",
-    rule="tbd",
-    trusted=[],
-    assumptions=[],
-    level_text="tbd",
-    level_note="tbd",
+    corr_theorems=(
+        "schlick: M3d.C19.schlick_endpoints_monotone / reflectAmount_range; rdens rddens rsamp rsampd rbsdf: "
+        "refract_sampler_matches_density, lobe_split_sums_to_one, dest_density_symmetry; cyl: cylinder_sample_on_surface, "
+        "cylinder_cap_sample_on_surface, cylinder_part_proportional, total_emission_eq_emission_times_area; sphere: "
+        "sphere_sample_on_surface; mesh: mesh_sample_on_surface, triangle_sample_inside, triangle_sample_on_plane, "
+        "cumulative_selection_proportional; join selgrid: cumulative_selection_proportional; jsel jdens (and the exact Q "
+        "variants): mixture_selection_interval, mixture_density; lsamp ldens lbsdf: lambert_cdf, lambert_energy; adsamp "
+        "addens psamp pdens pbsdf maxcos: phong_cdf, phong_mixture, phong_energy_le, lobe_sample_cosine; hgsamp hgdens "
+        "hgnum: hg_cdf; finfo ausamp audens fdens: uniform_cap_cdf, focus_info_tangent_cone"),
+    rule=(
+        "one case = one call of a real render3d sampler / density / BSDF / light with the randomness scripted (a rand.Source "
+        "replaying harness-chosen raw values, so gen.Float64()/Intn(2)/NormFloat64() return known numbers) and arguments drawn "
+        "from: unit vectors incl. axis-aligned and tie cases of OrthoBasis; indices of refraction above, below and equal to 1; "
+        "normal and grazing incidence; exponents 0..1e4; G in [-2,2]; radii != 1; uniforms k/2^53 incl. 0, 1-2^-53 and values "
+        "on the boundaries of the cumulative tables / of the reflectance; degenerate weights.  Distinct = distinct op lines."),
+    trusted=[
+        "modelled, not verified: IEEE rounding (theorems are over ordered fields; the Float run of the same definitions is compared bit for bit with Go)",
+        "libm results (cos, sin, acos, pow with non-integer exponent) are passed to the model as arguments computed by the harness with the expression the Go code uses; their closed forms are only validated with a tolerance (validate: sites)",
+        "math.Pow(x,5) is modelled as x*((x*x)*(x*x)) (Go's square-and-multiply), confirmed bit for bit on every run",
+        "the scripted rand.Source relies on math/rand's documented mapping raw->Float64/Intn/NormFloat64; the mapping is self-checked at start-up",
+        "statements about the histogram of a pseudo-random stream are outside the theorems: what is proved is the change of variables (CDF o sampler = id, CDF' = density/2) for ideal uniform draws",
+    ],
+    assumptions=[
+        "directions passed to materials are unit vectors, index of refraction >= 0, NaN excluded",
+        "SqrtOK: sqrt x * sqrt x = x and sqrt x >= 0 for x >= 0 (holds of Real.sqrt; non-vacuity example in Props/C19.lean)",
+    ],
+    level_text=(
+        "Lean 4 theorems, for every ordered field / over the reals and all parameter values: reflectAmount is Schlick's "
+        "approximation (R0 at normal incidence, 1 at grazing, antitone, in [R0,1]); lobe weights sum to one and are the "
+        "probabilities the sampler uses; mixture densities are sum p_i*density_i with the selection intervals of length p_i; "
+        "Phong/Lambert reflected energy bounded lobe by lobe; cumulative-table selection (with Go's binary search) is "
+        "proportional to weight; every sphere / cylinder cap / cylinder shaft / mesh-triangle sample lies on its surface with "
+        "the unit outward normal for every radius; TotalEmission = emission x area; for Lambert, Phong lobe, Henyey-Greenstein "
+        "and the uniform cap the sampler's radial map inverts the closed-form CDF whose derivative is density/2 (HasDerivAt, "
+        "Mathlib).  The models are the functions the driver executes; they are compared bit for bit (Float) or exactly (Rat) "
+        "with the real Go code driven by scripted randomness on every run."),
+    level_note=(
+        "Partial: uniformity on the triangle is proved only as the Jacobian identity (triangle_jacobian_partial); sampling "
+        "histograms are not theorems; the delta-lobe approximation (2/eps caps) is checked only for split weights and support; "
+        "libm-dependent values are oracle arguments.  Trusted: Lean kernel + Mathlib, the Go harness and driver, math/rand's raw mapping."),
 )
